@@ -572,4 +572,299 @@ theorem wf_step (s : St) (op : Op) (hwf : WF s) : WF (step s op).1 := by
     | err c => exact hwf
     | panic k => exact hwf
 
+/-! ### reachable states -/
+
+inductive Reachable (b0 : Bank) : St → Prop
+  | init : Reachable b0 (St.init b0)
+  | step (s : St) (op : Op) : Reachable b0 s → Reachable b0 (ShareClass.step s op).1
+
+theorem wf_reachable (b0 : Bank) (s : St) (h : Reachable b0 s) : WF s := by
+  induction h with
+  | init => intro v d _; exact ⟨rfl, fun _ => rfl⟩
+  | step s op _ ih => exact wf_step s op ih
+
+/-- second_claim_zero on reachable states, at the level of `step`: the second claim is accepted and pays nothing -/
+theorem second_claim_zero_reachable (b0 : Bank) (s : St) (hr : Reachable b0 s) (u : Addr) (v : Val)
+    (h1 : (step s (.claim u v)).2.cls = "ok") :
+    (step (step s (.claim u v)).1 (.claim u v)).2.cls = "ok" ∧ (step (step s (.claim u v)).1 (.claim u v)).2.paid = [] := by
+  simp only [step] at h1 ⊢
+  cases hc : claimRewards s u v with
+  | ok r =>
+    obtain ⟨s1, t⟩ := r
+    obtain ⟨s2, h2⟩ := second_claim_zero s (wf_reachable b0 s hr) u v s1 t hc [] (by simp)
+    simp only [run] at h2
+    simp [h2]
+  | err c => simp [hc, Res.cls] at h1
+  | panic k => simp [hc, Res.cls] at h1
+
+theorem shareDenom_ne_fee (v : Val) : shareDenom v ≠ feeDenom := by
+  intro h
+  have := congrArg String.toList h
+  simp only [shareDenom, feeDenom, String.toList_append] at this
+  have h2 : "share/".toList = ['s','h','a','r','e','/'] := by decide
+  have h4 : "urise".toList = ['u','r','i','s','e'] := by decide
+  rw [h2, h4] at this
+  simp at this
+
+theorem shareDenom_ne_bond (v : Val) : shareDenom v ≠ bondDenom := by
+  intro h
+  have := congrArg String.toList h
+  simp only [shareDenom, bondDenom, String.toList_append] at this
+  have h2 : "share/".toList = ['s','h','a','r','e','/'] := by decide
+  have h4 : "uvrise".toList = ['u','v','r','i','s','e'] := by decide
+  rw [h2, h4] at this
+  simp at this
+
+theorem handleRewards_sup (s : St) (v : Val) (coins : Coins) : (handleRewards s v coins).bank.sup = s.bank.sup := by
+  unfold handleRewards
+  by_cases h0 : coins.all (fun c => c.2 = 0) = true
+  · simp only [h0, if_true]
+  simp only [h0]
+  have hc : (creditCoins s.bank moduleAcc coins).sup = s.bank.sup := by
+    funext d; exact (creditCoins_frame coins s.bank moduleAcc).2 d (by simp)
+  cases hs : sendCoins (creditCoins s.bank moduleAcc coins) moduleAcc (saver v) coins with
+  | ok b1 =>
+    simp only [Bool.false_eq_true, if_false]
+    have hb : b1.sup = s.bank.sup := by
+      funext d; rw [← hc]; exact (sendCoins_frame coins hs).2 d (by simp)
+    by_cases ht : b1.sup (shareDenom v) = 0
+    · simp only [ht, if_true]; exact hb
+    · simp only [ht, if_false]
+      have key : ∀ (cs : Coins) (s0 : St), (cs.foldl (fun s c =>
+          { s with mult := fun v' d' => if v' = v ∧ d' = c.1 then D34.reparse (CalculateRewardMultiplierNew (s.mult v c.1) c.2 (b1.sup (shareDenom v))) else s.mult v' d',
+                   hasMult := fun v' d' => if v' = v ∧ d' = c.1 then true else s.hasMult v' d' }) s0).bank = s0.bank := by
+        intro cs
+        induction cs with
+        | nil => intro s0; rfl
+        | cons c cs ih => intro s0; simp only [List.foldl]; rw [ih]
+      rw [key]; exact hb
+  | err c => simp only [Bool.false_eq_true, if_false]; exact hc
+  | panic k => simp only [Bool.false_eq_true, if_false]; exact hc
+
+/-- shares_only_delegate_undelegate: the supply of every share denom is changed by no operation other than a
+    NonVotingDelegate / NonVotingUndelegate of that validator: not by claims, not by the end-blocker, not by messages at
+    other validators. -/
+theorem share_supply_only_delegate_undelegate (s : St) (op : Op) (v : Val)
+    (hop : ∀ u a d x, op ≠ .delegate u v a d x) (hop2 : ∀ u a rc x, op ≠ .undelegate u v a rc x) :
+    (step s op).1.bank.sup (shareDenom v) = s.bank.sup (shareDenom v) := by
+  have claimSup : ∀ {u v' s1 t}, claimRewards s u v' = .ok (s1, t) → s1.bank.sup = s.bank.sup := by
+    intro u v' s1 t hc
+    obtain ⟨_, hs, _⟩ := claim_ok hc
+    funext d; exact (sendCoins_frame t hs).2 d (by simp)
+  cases op with
+  | delegate u v' a d x =>
+    simp only [step]
+    cases hr : delegate s u v' a d x with
+    | ok s' =>
+      obtain ⟨s1, t, hc, _, hsf, _⟩ := delegate_ok hr
+      have hne : v' ≠ v := fun e => hop u a d x (by rw [e])
+      have : shareDenom v ∉ [feeDenom, bondDenom, shareDenom v'] := by
+        simp only [List.mem_cons, List.not_mem_nil, or_false, not_or]
+        refine ⟨shareDenom_ne_fee v, shareDenom_ne_bond v, ?_⟩
+        intro e; exact hne ((String.append_right_inj _).1 e).symm
+      show s'.bank.sup (shareDenom v) = _
+      rw [hsf _ this, claimSup hc]
+    | err c => rfl
+    | panic k => rfl
+  | undelegate u v' a rc x =>
+    simp only [step]
+    cases hr : undelegate s u v' a rc x with
+    | ok s' =>
+      obtain ⟨s1, t, hc, _, hsf, _⟩ := undelegate_ok hr
+      have hne : v' ≠ v := fun e => hop2 u a rc x (by rw [e])
+      have : shareDenom v ∉ [shareDenom v'] := by
+        simp only [List.mem_cons, List.not_mem_nil, or_false]
+        intro e; exact hne ((String.append_right_inj _).1 e).symm
+      show s'.bank.sup (shareDenom v) = _
+      rw [hsf _ this, claimSup hc]
+    | err c => rfl
+    | panic k => rfl
+  | claim u v' =>
+    simp only [step]
+    cases hr : claimRewards s u v' with
+    | ok r => obtain ⟨s1, t⟩ := r; show s1.bank.sup _ = _; rw [claimSup hr]
+    | err c => rfl
+    | panic k => rfl
+  | block now m rw =>
+    simp only [step]
+    cases hr : endBlock s now m rw with
+    | ok s' =>
+      unfold endBlock at hr
+      have key : ∀ (l : List (Val × Coins)) (s0 : St), (l.foldl (fun s r => handleRewards s r.1 r.2) s0).bank.sup = s0.bank.sup := by
+        intro l
+        induction l with
+        | nil => intro s0; rfl
+        | cons r l ih => intro s0; simp only [List.foldl]; rw [ih, handleRewards_sup]
+      obtain ⟨_, _, _, _, _, _, _, hsf, _⟩ := gc_ok now _ _ s' hr
+      show s'.bank.sup (shareDenom v) = _
+      rw [hsf _ (by simp [shareDenom_ne_fee, shareDenom_ne_bond]), key]
+      rfl
+    | err c => rfl
+    | panic k => rfl
+
+theorem handleRewards_fields (s : St) (v : Val) (coins : Coins) :
+    (handleRewards s v coins).sendOff = s.sendOff ∧ (handleRewards s v coins).last = s.last
+    ∧ (handleRewards s v coins).unb = s.unb ∧ (handleRewards s v coins).nextId = s.nextId
+    ∧ (handleRewards s v coins).claimed = s.claimed ∧ (handleRewards s v coins).paidOut = s.paidOut := by
+  unfold handleRewards
+  by_cases h0 : coins.all (fun c => c.2 = 0) = true
+  · simp [h0]
+  simp only [h0]
+  cases hs : sendCoins (creditCoins s.bank moduleAcc coins) moduleAcc (saver v) coins with
+  | ok b1 =>
+    simp only [Bool.false_eq_true, if_false]
+    by_cases ht : b1.sup (shareDenom v) = 0
+    · simp [ht]
+    · simp only [ht, if_false]
+      have key : ∀ (cs : Coins) (s0 : St), let r := (cs.foldl (fun s c =>
+          { s with mult := fun v' d' => if v' = v ∧ d' = c.1 then D34.reparse (CalculateRewardMultiplierNew (s.mult v c.1) c.2 (b1.sup (shareDenom v))) else s.mult v' d',
+                   hasMult := fun v' d' => if v' = v ∧ d' = c.1 then true else s.hasMult v' d' }) s0)
+          r.sendOff = s0.sendOff ∧ r.last = s0.last ∧ r.unb = s0.unb ∧ r.nextId = s0.nextId ∧ r.claimed = s0.claimed ∧ r.paidOut = s0.paidOut := by
+        intro cs
+        induction cs with
+        | nil => intro s0; exact ⟨rfl, rfl, rfl, rfl, rfl, rfl⟩
+        | cons c cs ih => intro s0; simp only [List.foldl]; exact ih _
+      exact key coins _
+  | err c => simp
+  | panic k => simp
+
+/-- share tokens are made non-transferable by the delegation that mints them, and no operation re-enables them -/
+theorem share_not_transferable (s : St) (op : Op) :
+    (∀ d, s.sendOff d = true → (step s op).1.sendOff d = true)
+    ∧ (∀ u v a d x, op = .delegate u v a d x → (step s op).2.cls = "ok" → (step s op).1.sendOff (shareDenom v) = true) := by
+  refine ⟨fun d hd => ?_, fun u v a d x e hok => ?_⟩
+  · cases op with
+    | delegate u v a d' x =>
+      simp only [step]
+      cases hr : delegate s u v a d' x with
+      | ok s' =>
+        obtain ⟨s1, t, hc, _, _, _, _, _, _, _, _, _, _, _, hmono⟩ := delegate_ok hr
+        obtain ⟨_, _, _, _, _, _, hso, _⟩ := claim_ok hc
+        exact hmono d (by rw [hso]; exact hd)
+      | err c => exact hd
+      | panic k => exact hd
+    | undelegate u v a rc x =>
+      simp only [step]
+      cases hr : undelegate s u v a rc x with
+      | ok s' =>
+        obtain ⟨s1, t, hc, _, _, _, _, _, _, _, _, _, _, hso', _⟩ := undelegate_ok hr
+        obtain ⟨_, _, _, _, _, _, hso, _⟩ := claim_ok hc
+        show s'.sendOff d = true
+        rw [hso', hso]; exact hd
+      | err c => exact hd
+      | panic k => exact hd
+    | claim u v =>
+      simp only [step]
+      cases hr : claimRewards s u v with
+      | ok r =>
+        obtain ⟨s1, t⟩ := r
+        obtain ⟨_, _, _, _, _, _, hso, _⟩ := claim_ok hr
+        show s1.sendOff d = true
+        rw [hso]; exact hd
+      | err c => exact hd
+      | panic k => exact hd
+    | block now m rw =>
+      simp only [step]
+      cases hr : endBlock s now m rw with
+      | ok s' =>
+        unfold endBlock at hr
+        have key : ∀ (l : List (Val × Coins)) (s0 : St), (l.foldl (fun s r => handleRewards s r.1 r.2) s0).sendOff = s0.sendOff := by
+          intro l
+          induction l with
+          | nil => intro s0; rfl
+          | cons r l ih =>
+            intro s0; simp only [List.foldl]; rw [ih]
+            exact (handleRewards_fields s0 r.1 r.2).1
+        obtain ⟨_, _, _, _, _, _, hso, _⟩ := gc_ok now _ _ s' hr
+        show s'.sendOff d = true
+        rw [hso, key]; exact hd
+      | err c => exact hd
+      | panic k => exact hd
+  · subst e
+    simp only [step] at hok ⊢
+    cases hr : delegate s u v a d x with
+    | ok s' =>
+      obtain ⟨s1, t, hc, _, _, _, _, _, _, _, _, _, _, hon, _⟩ := delegate_ok hr
+      exact hon
+    | err c => simp [hr, Res.cls] at hok
+    | panic k => simp [hr, Res.cls] at hok
+
+/-! ### unbondings are paid only when complete, and leave the queue when paid -/
+
+theorem gc_paid_removed (now : Int) (l : List Unb) : ∀ (s s' : St), gc now l s = .ok s' →
+    ∀ i, s'.paidOut i ≠ s.paidOut i → ∀ x ∈ s'.unb, x.id ≠ i := by
+  induction l with
+  | nil =>
+    intro s s' h i hi
+    simp only [gc, Res.ok.injEq] at h
+    subst h; exact absurd rfl hi
+  | cons e rest ih =>
+    intro s s' h i hi
+    simp only [gc] at h
+    by_cases h1 : unixSec e.completion > unixSec now
+    · simp only [h1, if_true, Res.ok.injEq] at h
+      subst h; exact absurd rfl hi
+    · simp only [h1, if_false] at h
+      by_cases h2 : e.completion > now
+      · simp only [h2, if_true] at h
+        exact ih s s' h i hi
+      · simp only [h2, if_false] at h
+        obtain ⟨b, hb, h⟩ := bind_ok h
+        by_cases hie : i = e.id
+        · intro x hx
+          have hx2 := (gc_ok now rest _ s' h).2.2.2.2.2.2.2.2.2 x hx
+          simp only [List.mem_filter, decide_eq_true_eq] at hx2
+          rw [hie]; exact hx2.2
+        · have : s'.paidOut i ≠ (if i = e.id then s.paidOut i + e.amount else s.paidOut i) := by simpa [hie] using hi
+          exact ih _ s' h i this
+
+theorem mem_insertIdx (u x : Unb) (l : List Unb) : x ∈ insertIdx u l → x = u ∨ x ∈ l := by
+  induction l with
+  | nil => intro h; simp [insertIdx] at h; exact Or.inl h
+  | cons y ys ih =>
+    intro h
+    simp only [insertIdx] at h
+    split at h
+    · simp only [List.mem_cons] at h ⊢; tauto
+    · simp only [List.mem_cons] at h ⊢
+      rcases h with h | h
+      · exact Or.inr (Or.inl h)
+      · rcases ih h with h | h
+        · exact Or.inl h
+        · exact Or.inr (Or.inr h)
+
+theorem mem_sortIdx (x : Unb) (l : List Unb) : x ∈ sortIdx l → x ∈ l := by
+  induction l with
+  | nil => intro h; simpa [sortIdx] using h
+  | cons y ys ih =>
+    intro h
+    simp only [sortIdx, List.foldr] at h
+    rcases mem_insertIdx _ _ _ h with h | h
+    · simp [h]
+    · exact List.mem_cons_of_mem _ (ih h)
+
+/-- undelegate_paid_once (partial: under the staking boundary hypothesis that the end-blocker's payments succeed,
+    i.e. staking has released every bond token the queue recorded — `endBlock … = .ok`): an end-block at time `now`
+    pays an unbonding only if it is in the queue and `completion ≤ now` (never early, whatever the sub-second
+    offsets), and every entry it pays is removed from the queue, so it cannot be paid a second time. -/
+theorem undelegate_paid_once_partial (s s' : St) (now m : Int) (rw : List (Val × Coins))
+    (hok : endBlock s now m rw = .ok s') (i : Nat) (hi : s'.paidOut i ≠ s.paidOut i) :
+    (∃ e ∈ s.unb, e.id = i ∧ e.completion ≤ now) ∧ (∀ x ∈ s'.unb, x.id ≠ i) := by
+  unfold endBlock at hok
+  have key : ∀ (l : List (Val × Coins)) (s0 : St),
+      (l.foldl (fun s r => handleRewards s r.1 r.2) s0).unb = s0.unb ∧ (l.foldl (fun s r => handleRewards s r.1 r.2) s0).paidOut = s0.paidOut := by
+    intro l
+    induction l with
+    | nil => intro s0; exact ⟨rfl, rfl⟩
+    | cons r l ih =>
+      intro s0; simp only [List.foldl]
+      obtain ⟨_, _, hu, _, _, hp⟩ := handleRewards_fields s0 r.1 r.2
+      rw [(ih _).1, (ih _).2, hu, hp]; exact ⟨rfl, rfl⟩
+  obtain ⟨ku, kp⟩ := key rw { s with bank := s.bank.credit moduleAcc bondDenom m }
+  have hi' : s'.paidOut i ≠ (rw.foldl (fun s r => handleRewards s r.1 r.2) { s with bank := s.bank.credit moduleAcc bondDenom m }).paidOut i := by
+    rw [kp]; exact hi
+  refine ⟨?_, gc_paid_removed now _ _ s' hok i hi'⟩
+  obtain ⟨e, he, h1, h2⟩ := (gc_ok now _ _ s' hok).2.2.2.2.2.2.2.2.1 i hi'
+  exact ⟨e, by rw [ku] at he; exact mem_sortIdx e _ he, h1, h2⟩
+
 end Sunrise.C10
